@@ -1352,3 +1352,196 @@ Proof.
   assert (E : ns0 = ns /\ sh0 = shapes) by (split; congruence). destruct E as [-> ->].
   exists shapes'. auto.
 Qed.
+
+(** ** C (ii). the keys with remove_empty_shapes ON
+
+    What the profile-level cleaning does, declaratively: a class key is kept
+    iff it is an "original label" or the class has a feature (a positive
+    count); from the type-key dictionaries exactly the removed class keys
+    disappear. *)
+Definition has_feat (cfg : pcfg) (I : insts) (G : graph) (c : str) : Prop :=
+  exists dir p k card, (dir = Inverse -> p_inverse cfg = true) /\ 0 < occ dir (p_tau cfg) I G c p k card.
+
+Lemma has_features_feat cfg (I : insts) G ID P1 C0 c e :
+  NoDup (dkeys I) -> annotate_all (p_tau cfg) (p_inverse cfg) G (adapt I) = inl ID ->
+  raw_profile cfg I ID = (P1, C0) -> dget P1 c = Some e ->
+  (has_features (p_inverse cfg) e = true <-> has_feat cfg I G c).
+Proof.
+  intros Hn HA HR He. destruct (profile_entries_char cfg I G ID P1 C0 Hn HA HR c e He) as (_ & _ & Hd & Hi).
+  unfold has_features, has_feat. destruct (c_direct e) as [|x l] eqn:Ed.
+  - assert (ND : ~ exists p k card, 0 < occ Direct (p_tau cfg) I G c p k card).
+    { intros H. apply Hd in H. apply H. reflexivity. }
+    destruct (p_inverse cfg) eqn:Ei.
+    + destruct (Hi eq_refl) as [_ Hi2]. destruct (c_inverse e) as [|y l'] eqn:Ev.
+      * split; [discriminate|]. intros (dir & p & k & card & _ & H). exfalso. destruct dir.
+        -- apply ND. eauto.
+        -- assert (H' : exists p k card, 0 < occ Inverse (p_tau cfg) I G c p k card) by eauto.
+           apply Hi2 in H'. apply H'. reflexivity.
+      * split; [intros _|reflexivity]. destruct (proj1 Hi2) as (p & k & card & H); [discriminate|].
+        exists Inverse, p, k, card. auto.
+    + split; [discriminate|]. intros (dir & p & k & card & Hdir & H). exfalso. destruct dir.
+      * apply ND. eauto.
+      * specialize (Hdir eq_refl). discriminate Hdir.
+  - split; [intros _|reflexivity]. destruct (proj1 Hd) as (p & k & card & H); [discriminate|].
+    exists Direct, p, k, card. split; [discriminate | exact H].
+Qed.
+
+Lemma profile_kept_char cfg (I : insts) G P C ID :
+  NoDup (dkeys I) -> profile cfg I G = inl (P, C, ID) ->
+  (forall c, In c (dkeys P) <->
+             In c (class_keys (targets_of cfg) I) /\
+             (p_remove_empty cfg = false \/ In c (orig_labels cfg) \/ has_feat cfg I G c)) /\
+  (forall c e, In (c, e) P -> forall p k ck n,
+     pd_entry (c_direct e) p k ck n \/ pd_entry (c_inverse e) p k ck n ->
+     In k (class_keys (targets_of cfg) I) -> In k (dkeys P)).
+Proof.
+  intros Hn HP. rewrite profile_result in HP.
+  destruct (annotate_all (p_tau cfg) (p_inverse cfg) G (adapt I)) as [ID'|] eqn:HA; [|discriminate HP].
+  destruct (raw_profile cfg I ID') as [P1 C0] eqn:HR. injection HP as HP1 _ _.
+  destruct (profile_counts_char cfg I G ID' P1 C0 Hn HA HR) as (KP1 & _ & NDP1 & _).
+  set (ks := if p_remove_empty cfg then shapes_to_remove (p_inverse cfg) (orig_labels cfg) P1 else []).
+  assert (EP : P = remove_iteration ks P1).
+  { unfold ks. destruct (p_remove_empty cfg); [symmetry; exact HP1|]. rewrite remove_iteration_nil. symmetry. exact HP1. }
+  assert (EK : dkeys P = filter (not_in ks) (class_keys (targets_of cfg) I)).
+  { rewrite EP, dkeys_remove_iteration, KP1. reflexivity. }
+  split.
+  - intros c. rewrite EK, filter_In. split.
+    + intros [Hc Hk]. split; [exact Hc|]. unfold ks in Hk. destruct (p_remove_empty cfg) eqn:Ere; [|left; reflexivity].
+      right. destruct (mem_str c (orig_labels cfg)) eqn:El; [left; apply mem_str_In; exact El|]. right.
+      rewrite <- KP1 in Hc. apply In_dkeys_dget in Hc. destruct Hc as [e [He Hin]].
+      apply (has_features_feat cfg I G ID' P1 C0 c e Hn HA HR He).
+      destruct (has_features (p_inverse cfg) e) eqn:Ef; [reflexivity|]. exfalso.
+      unfold not_in in Hk. apply negb_true_iff, mem_str_false in Hk. apply Hk.
+      apply In_shapes_to_remove. exists e. split; [exact Hin|]. split; [apply mem_str_false; exact El | exact Ef].
+    + intros [Hc Hwhy]. split; [exact Hc|]. unfold not_in. apply negb_true_iff, mem_str_false. intros Hin.
+      unfold ks in Hin. destruct (p_remove_empty cfg) eqn:Ere; [|destruct Hin].
+      apply In_shapes_to_remove in Hin. destruct Hin as (e & Hin & Hl & Hf).
+      destruct Hwhy as [H|[H|H]]; [discriminate H | contradiction|].
+      pose proof (In_dget_NoDup P1 c e NDP1 Hin) as He.
+      apply (has_features_feat cfg I G ID' P1 C0 c e Hn HA HR He) in H. congruence.
+  - intros c e Hce p k ck n He Hk. rewrite EK. apply filter_In. split; [exact Hk|].
+    rewrite EP in Hce. apply In_remove_iteration in Hce. destruct Hce as (e1 & _ & -> & _).
+    unfold not_in. apply negb_true_iff, mem_str_false.
+    destruct He as [(kd & cd & H1 & H2 & _)|(kd & cd & H1 & H2 & _)]; cbn [clean_entry c_direct c_inverse] in H1;
+      destruct (In_remove_keys_pdict _ _ _ _ _ _ H1 H2) as (_ & _ & _ & Hn'); exact Hn'.
+Qed.
+
+(** a key passes: as [key_passes_occ], with a type key the cleaning kept *)
+Definition key_passes_occ_kept (fa : FreqAlg) (c : rcfg) (thr : F fa) (I : insts) (g : graph)
+           (kept : str -> Prop) (cls : str) (inv : bool) (p : str) (vc : vclass) : Prop :=
+  (inv = true -> r_inverse c = true) /\
+  exists k ck, value_class (r_tau c) p [k] = vc /\
+    0 < occ (dir_of inv) (r_tau c) I g cls p k ck /\
+    fle fa thr (ratio fa (occ (dir_of inv) (r_tau c) I g cls p k ck) (class_count I cls)) = true /\
+    kept k.
+
+(** C02 for the shapes before the shape-level cleaning, whatever
+    remove_empty_shapes: soundness AND completeness *)
+Theorem run_raw_keys_iff_occ fa c thr g ns shapes :
+  run_raw fa c thr g = inl (ns, shapes) ->
+  exists I P C ID,
+    track (r_tau c) (mode_of c) (r_cap c) g = inl I /\
+    profile (pcfg_of c) I g = inl (P, C, ID) /\
+    map sh_class shapes = dkeys P /\
+    forall sh, In sh shapes ->
+      sh_name sh = shape_name (r_shapes_ns c) (sh_class sh) /\
+      sh_n sh = class_count I (sh_class sh) /\
+      forall inv p vc,
+        In (inv, p, vc) (map (skey (scfg_of c ns)) (sh_stmts sh)) <->
+        key_passes_occ_kept fa c thr I g
+          (fun k => In k (class_keys (targets_of (pcfg_of c)) I) -> In k (dkeys P)) (sh_class sh) inv p vc.
+Proof.
+  intros H. unfold run_raw in H. destruct (full_ns c) as [ns0|]; [|discriminate H].
+  destruct (front c g) as [[P C]|] eqn:Hf; [|discriminate H].
+  destruct (map_err (shex_class fa (scfg_of c ns0) thr C) P) as [l|] eqn:Em; [|discriminate H].
+  injection H as <- <-. destruct (front_inl c g P C Hf) as (I & ID & HT & HP).
+  change (tmode_of c) with (mode_of c) in HT. exists I, P, C, ID. split; [exact HT|]. split; [exact HP|].
+  apply map_err_Forall2 in Em.
+  pose proof (proj1 (track_insts_ok _ _ _ _ _ HT)) as Hn.
+  destruct (profile_kept_char (pcfg_of c) I g P C ID Hn HP) as [_ Hkept].
+  split.
+  { symmetry. unfold dkeys. apply Forall2_map_eq. eapply Forall2_impl_In; [|exact Em]. cbn. intros ce sh _ _ Hs.
+    destruct (shex_class_unfold fa _ thr C ce sh Hs) as (_ & _ & _ & _ & _ & _ & E2 & _). symmetry. exact E2. }
+  intros sh Hsh. destruct (ShexBasics.Forall2_In_r _ _ _ _ Em Hsh) as [ce [Hce Hs]].
+  destruct (shex_class_unfold fa _ thr C ce sh Hs) as (_ & _ & _ & _ & _ & E1 & E2 & E3).
+  pose proof (cnt_of_class_count c g I P C ID HT HP _ (P_keys_sub c g I P C ID HT HP ce Hce)) as Ecc.
+  rewrite E2. split; [exact E1|]. split; [rewrite E3; exact Ecc|].
+  intros inv p vc. rewrite (shex_class_keys fa _ thr C ce sh Hs inv p vc), Ecc. split.
+  - intros (k & ck & n & He & Hv & Hfle).
+    destruct (pd_entry_occ c g ns0 I P C ID HT HP ce inv p k ck n Hce He) as (En & Hp & Hi).
+    split; [exact Hi|]. exists k, ck. subst n. split; [exact Hv|]. split; [exact Hp|]. split; [exact Hfle|].
+    destruct ce as [cls e]. apply (Hkept cls e Hce p k ck (occ (dir_of inv) (r_tau c) I g (fst (cls, e)) p k ck)).
+    unfold class_pd in He. cbn [snd] in He.
+    destruct inv; [|left; exact He]. destruct (x_inverse (scfg_of c ns0)); [right; exact He|].
+    destruct He as (kd & cd & [] & _).
+  - intros (Hi & k & ck & Hv & Hp & Hfle & Hk).
+    exists k, ck, (occ (dir_of inv) (r_tau c) I g (fst ce) p k ck). split; [|split; [exact Hv | exact Hfle]].
+    apply (occ_pd_entry c g ns0 I P C ID HT HP ce inv p k ck Hce Hi Hk Hp).
+Qed.
+
+(** hence the keys of the raw shapes are invariant under permutation of the
+    statements: any setting of remove_empty_shapes, any threshold *)
+Lemma has_feat_perm cfg I I' g g' cls :
+  insts_equiv I I' -> Permutation g g' -> has_feat cfg I g cls -> has_feat cfg I' g' cls.
+Proof.
+  intros He HP (dir & p & k & card & Hd & H). exists dir, p, k, card. split; [exact Hd|].
+  rewrite <- (occ_perm_equiv dir (p_tau cfg) I I' g g' cls p k card He HP). exact H.
+Qed.
+
+Lemma kept_keys_perm cfg I I' g g' P C ID P' C' ID' :
+  insts_equiv I I' -> Permutation g g' ->
+  profile cfg I g = inl (P, C, ID) -> profile cfg I' g' = inl (P', C', ID') ->
+  forall cls, In cls (dkeys P) -> In cls (dkeys P').
+Proof.
+  intros He HP H H' cls Hin. pose proof He as (N1 & N2 & _).
+  destruct (profile_kept_char cfg I g P C ID N1 H) as [K _]. destruct (profile_kept_char cfg I' g' P' C' ID' N2 H') as [K' _].
+  apply K in Hin. destruct Hin as [A B]. apply K'. split; [apply (class_keys_insts_equiv _ I I' cls He); exact A|].
+  destruct B as [B|[B|B]]; [left; exact B | right; left; exact B | right; right].
+  apply (has_feat_perm cfg I I' g g' cls He HP B).
+Qed.
+
+Theorem run_raw_keys_perm fa c thr g g' ns shapes ns' shapes' :
+  (r_cap c <= 0)%Z -> Permutation g g' ->
+  run_raw fa c thr g = inl (ns, shapes) -> run_raw fa c thr g' = inl (ns', shapes') ->
+  ns' = ns /\
+  (forall cls, In cls (map sh_class shapes) <-> In cls (map sh_class shapes')) /\
+  forall sh sh', In sh shapes -> In sh' shapes' -> sh_class sh = sh_class sh' ->
+    sh_name sh = sh_name sh' /\ sh_n sh = sh_n sh' /\
+    forall key, In key (map (skey (scfg_of c ns)) (sh_stmts sh)) <->
+                In key (map (skey (scfg_of c ns)) (sh_stmts sh')).
+Proof.
+  intros Hcap HP H H'.
+  assert (Ens : ns' = ns).
+  { unfold run_raw in H, H'. destruct (full_ns c) as [ns0|]; [|discriminate H].
+    destruct (front c g) as [[P C]|]; [|discriminate H]. destruct (front c g') as [[P' C']|]; [|discriminate H'].
+    destruct (map_err _ P); [|discriminate H]. destruct (map_err _ P'); [|discriminate H'].
+    injection H as <- _. injection H' as <- _. reflexivity. }
+  subst ns'. split; [reflexivity|].
+  destruct (run_raw_keys_iff_occ fa c thr g ns shapes H) as (I & P & C & ID & HT & HPr & HC & HK).
+  destruct (run_raw_keys_iff_occ fa c thr g' ns shapes' H') as (I' & P' & C' & ID' & HT' & HPr' & HC' & HK').
+  destruct (track_perm _ _ _ g g' I Hcap HP HT) as (I'' & HT'' & He).
+  assert (I'' = I') by congruence. subst I''.
+  pose proof (insts_equiv_sym I I' He) as He'. pose proof (Permutation_sym HP) as HP'.
+  assert (Hkeys : forall cls, In cls (dkeys P) <-> In cls (dkeys P')).
+  { intros cls. split.
+    - apply (kept_keys_perm (pcfg_of c) I I' g g' P C ID P' C' ID' He HP HPr HPr').
+    - apply (kept_keys_perm (pcfg_of c) I' I g' g P' C' ID' P C ID He' HP' HPr' HPr). }
+  split; [intros cls; rewrite HC, HC'; apply Hkeys|].
+  intros sh sh' Hsh Hsh' Ecls. destruct (HK sh Hsh) as (Enm & En & Hk). destruct (HK' sh' Hsh') as (Enm' & En' & Hk').
+  split; [rewrite Enm, Enm', Ecls; reflexivity|].
+  split; [rewrite En, En', Ecls; apply class_count_insts_equiv, He|].
+  assert (Hone : forall (I1 I2 : insts) g1 g2 (P1 P2 : cprofile) cls inv p vc,
+            insts_equiv I1 I2 -> Permutation g1 g2 -> (forall x, In x (dkeys P1) <-> In x (dkeys P2)) ->
+            key_passes_occ_kept fa c thr I1 g1
+              (fun k => In k (class_keys (targets_of (pcfg_of c)) I1) -> In k (dkeys P1)) cls inv p vc ->
+            key_passes_occ_kept fa c thr I2 g2
+              (fun k => In k (class_keys (targets_of (pcfg_of c)) I2) -> In k (dkeys P2)) cls inv p vc).
+  { intros I1 I2 g1 g2 P1 P2 cls inv p vc E12 HP12 HK12 (Hi & k & ck & Hv & Hp & Hf & Hkk).
+    split; [exact Hi|]. exists k, ck.
+    rewrite <- (occ_perm_equiv (dir_of inv) (r_tau c) I1 I2 g1 g2 cls p k ck E12 HP12).
+    rewrite <- (class_count_insts_equiv I1 I2 cls E12). split; [exact Hv|]. split; [exact Hp|]. split; [exact Hf|].
+    intros Hin. apply HK12, Hkk. apply (class_keys_insts_equiv _ I1 I2 k E12). exact Hin. }
+  intros [[inv p] vc]. rewrite Hk, Hk', Ecls. split.
+  - apply Hone; assumption.
+  - apply Hone; [exact He' | exact HP'|]. intros x. symmetry. apply Hkeys.
+Qed.
